@@ -188,22 +188,59 @@ func (n *mNode) scoreRange() (float64, float64) {
 	return lo, hi
 }
 
+// scoreLess reports whether an invocation with e executing workers whose next
+// operation has priority p certainly has a lower score
+// (executing workers + 1) * 2^(priority/100) than one with (e2, p2). Only the
+// ratio of the two scores is ever formed, so that priorities anywhere in the
+// int32 range compare correctly (2^(p/100) itself overflows a float64 beyond
+// |p| of about 10^5).
+func scoreLess(e int, p int32, e2 int, p2 int32) bool {
+	a, b := float64(e+1), float64(e2+1)
+	switch {
+	case p == p2:
+		return a < b
+	case p < p2:
+		b *= math.Pow(2, (float64(p2)-float64(p))/100)
+	default:
+		a *= math.Pow(2, (float64(p)-float64(p2))/100)
+	}
+	return a*(1+scoreTolerance) < b
+}
+
+// certainlyBefore: whichever of their possible next operations is taken, d's
+// score is lower than c's.
+func certainlyBefore(d, c *mNode) bool {
+	pd, pc := d.firstPriorities(), c.firstPriorities()
+	if len(pd) == 0 || len(pc) == 0 {
+		return false
+	}
+	for _, x := range pd {
+		for _, y := range pc {
+			if !scoreLess(len(d.exec), x, len(c.exec), y) {
+				return false
+			}
+		}
+	}
+	return true
+}
+
 // minimalByScore returns the queued children whose score may be the lowest.
 func (n *mNode) minimalByScore() ([]*mNode, float64) {
 	kids := n.queuedChildren()
-	min := math.Inf(1)
-	for _, c := range kids {
-		if _, hi := c.scoreRange(); hi < min {
-			min = hi
-		}
-	}
 	var out []*mNode
 	for _, c := range kids {
-		if lo, _ := c.scoreRange(); lo <= min*(1+scoreTolerance) {
+		beaten := false
+		for _, d := range kids {
+			if d != c && certainlyBefore(d, c) {
+				beaten = true
+				break
+			}
+		}
+		if !beaten {
 			out = append(out, c)
 		}
 	}
-	return out, min
+	return out, 0
 }
 
 // preferredChildren: lowest score, ties to the least recently started.
